@@ -16,6 +16,7 @@ import (
 	"math/big"
 	"net"
 	"os"
+	"strings"
 	"sync"
 	"time"
 
@@ -92,6 +93,19 @@ func newPKI() *pki {
 	inter, interKey, interDer := mint(tmpl(ruleName, true, far), root, rootKey) // the intermediate carries the rule's name
 	_, mKey, mDer := mint(tmpl("mallory", false, far), inter, interKey)
 	p.clients["intermediate"] = []tls.Certificate{{Certificate: [][]byte{mDer, interDer}, PrivateKey: mKey}}
+	// near misses of the common name: another letter case, the name as a proper prefix / suffix of the certificate's name,
+	// the name only as a DNS subject-alternative name, and a certificate that is not valid yet
+	p.clients["namecase"] = []tls.Certificate{leaf(strings.ToUpper(ruleName), far, root, rootKey)}
+	p.clients["nameprefix"] = []tls.Certificate{leaf(ruleName+".evil.example", far, root, rootKey)}
+	p.clients["namesuffix"] = []tls.Certificate{leaf("not-"+ruleName, far, root, rootKey)}
+	sanT := tmpl("someone-else", false, far)
+	sanT.DNSNames = []string{ruleName}
+	_, sanKey, sanDer := mint(sanT, root, rootKey)
+	p.clients["namesan"] = []tls.Certificate{{Certificate: [][]byte{sanDer}, PrivateKey: sanKey}}
+	nyT := tmpl(ruleName, false, far)
+	nyT.NotBefore = time.Now().Add(24 * time.Hour)
+	_, nyKey, nyDer := mint(nyT, root, rootKey)
+	p.clients["notyet"] = []tls.Certificate{{Certificate: [][]byte{nyDer}, PrivateKey: nyKey}}
 	p.clients["nocert"] = nil
 	return p
 }
@@ -315,10 +329,10 @@ func garbageVariants() [][]byte {
 		append([]byte("\x16\x03\x01\xff\xff"), bytes.Repeat([]byte{0x41}, 40)...), // oversized record header
 		append(append([]byte{}, hello...), []byte("\xde\xad\xbe\xef garbage after a valid ClientHello \x00\x00")...),
 		[]byte("GET / HTTP/1.0\r\n\r\n"),
-		[]byte("\x80\x2e\x01\x00\x02\x00\x15\x00\x00\x00\x10"), // SSLv2-looking hello
-		[]byte("\x15\x03\x03\x00\x02\x02\x28"),                   // an alert record
+		[]byte("\x80\x2e\x01\x00\x02\x00\x15\x00\x00\x00\x10"),                 // SSLv2-looking hello
+		[]byte("\x15\x03\x03\x00\x02\x02\x28"),                                 // an alert record
 		[]byte("\x16\x03\x03\x00\x00\x16\x03\x03\x00\x00\x16\x03\x03\x00\x00"), // empty handshake records
-		[]byte("\x17\x03\x03\x00\x01\x00"),                        // application data before any handshake
+		[]byte("\x17\x03\x03\x00\x01\x00"),                                     // application data before any handshake
 	}
 }
 
